@@ -184,7 +184,7 @@ def vela_config(V, accel, cli_given, inherit, focus):
     af.ConfigParser = lambda: _Cfg(sections)
     raised = None
     try:
-        with core.shims((af, {"int": _IntShim, "float": lambda x: x, "print": lambda *a, **k: None})):
+        with core.shims((af, {"int": core.IntShim, "float": lambda x: x, "print": lambda *a, **k: None})):
             arch._get_vela_config(["file.ini"], False, cli)
     except (af.ConfigOptionError, af.CliOptionError) as e:
         raised = e
